@@ -53,7 +53,7 @@ func init() {
 		Entries: []EntrySpec{
 			{Pkg: "datalog", Func: "VerifC05Fixpoint",
 				Quick:    p("facts", 2, "rules", 1, "body", 2, "arity", 1, "vars", 2, "expr", 1, "kinds", 1, "varfacts", 0, "varrules", 0),
-				Thorough: p("facts", 3, "rules", 2, "body", 2, "arity", 2, "vars", 2, "expr", 1, "kinds", 1, "varfacts", 0, "varrules", 0),
+				Thorough: p("facts", 3, "rules", 1, "body", 2, "arity", 1, "vars", 2, "expr", 1, "kinds", 1, "varfacts", 0, "varrules", 0),
 				Covers:   []string{"run-ok", "derived"}},
 			{Pkg: "datalog", Func: "VerifC05Fixpoint",
 				Quick:    p("facts", 2, "rules", 1, "body", 1, "arity", 1, "vars", 1, "expr", 0, "kinds", 5, "varfacts", 0, "varrules", 0),
